@@ -542,6 +542,9 @@ func (r *gRun) oracles() []string {
 	if r.status == "err.unknown" {
 		add("c09-stage", "error outside the four stages: %s", r.errText)
 	}
+	if r.status != "ok" && r.plainlyResolvable() {
+		add("c02-resolvable-fails", "start-up ended with %s although every point names an existing, different component, nothing is substituted and no fault is injected: %.160s", r.status, strings.ReplaceAll(r.errText, "\n", " "))
+	}
 	unwired := map[int]bool{}
 	for i, n := range r.nodesObj {
 		if isUnwired(n) {
@@ -640,6 +643,42 @@ func (r *gRun) oracles() []string {
 				add("c06-single-many", "single-valued field %s holds %d objects", k, len(objs))
 			}
 		}
+		// C05: every point that holds something at the end held it already when Init ran (populate strictly before init)
+		for i, n := range r.nodesObj {
+			b := n.base()
+			if b.initSnap == nil || unwired[i] {
+				continue
+			}
+			for slot, was := range b.initSnap {
+				key := fmt.Sprintf("%d.%s", i, slot)
+				if len(r.fields[key]) > 0 && !was {
+					add("c05-init-before-populate", "point %s was still empty when Init of its holder ran, but is set after the start", key)
+				}
+				info := r.slotInfo[key]
+				if !was && len(r.fields[key]) == 0 && info[0] != "o" && !strings.Contains(info[2], "required=false") {
+					add("c05-unset-at-init", "required point %s was empty when Init of its holder ran (and still is)", key)
+				}
+			}
+		}
+		// C13: the invocation sequence respects the ordering contract (priority-ordered, then ordered, then the rest; keys never decrease)
+		{
+			rankOf := map[string]int{"p": 0, "o": 1, "n": 2}
+			prevCls, prevKey, have := 0, 0, false
+			for _, e := range r.events {
+				if e[0] != 'r' {
+					continue
+				}
+				ri, _ := strconv.Atoi(e[1:])
+				if ri >= len(r.rows) {
+					continue
+				}
+				cls, key := rankOf[r.rows[ri].ocls], r.rows[ri].okey
+				if have && (cls < prevCls || (cls == prevCls && cls < 2 && key < prevKey)) {
+					add("c13-order", "runner node %d (class %s, Order %d) invoked after a runner of class rank %d, Order %d", ri, r.rows[ri].ocls, key, prevCls, prevKey)
+				}
+				prevCls, prevKey, have = cls, key, true
+			}
+		}
 		// runners: each created runner exactly once
 		cnt := map[string]int{}
 		for _, e := range r.events {
@@ -659,6 +698,40 @@ func (r *gRun) oracles() []string {
 		}
 	}
 	return fails
+}
+
+// plainlyResolvable: every point of every node is a required/optional by-name wire through an `any` slot to an existing
+// node other than the holder, no substitution, no fault, no configuration slot, no post-processor types. Such a graph —
+// whatever cycles it contains — must start (C02), independently of any model.
+func (r *gRun) plainlyResolvable() bool {
+	if r.sc.loaderFail || r.sc.scanFail {
+		return false
+	}
+	names := map[string]int{}
+	for i := range r.sc.nodes {
+		if i < len(r.rows) {
+			names[r.rows[i].name] = i
+		}
+	}
+	for i, n := range r.sc.nodes {
+		if n.flt != 0 || n.early != 0 || n.after != 0 || n.cfg != 0 || utInfos[n.ty].pp {
+			return false
+		}
+		for slot, tag := range n.slots {
+			if slot != "A0" && slot != "A1" && slot != "A2" {
+				return false
+			}
+			if tag[0] != 'w' || strings.Contains(tag, ",") && !strings.HasSuffix(tag, ",required=false") {
+				return false
+			}
+			target := strings.TrimSuffix(tag[1:], ",required=false")
+			j, ok := names[target]
+			if !ok || j == i {
+				return false
+			}
+		}
+	}
+	return len(r.sc.nodes) > 0
 }
 
 func joinFails(f []string) string {
@@ -724,13 +797,22 @@ func graphReplay(scn string, w *hx.Writer) {
 	emitGraph(sc, []string{"replay"}, w)
 }
 
+var hangs int
+
 func emitGraph(sc *gScen, tags []string, w *hx.Writer) *gRun {
 	r := runGraph(sc)
 	if r.status == "dupname" {
 		return r
 	}
 	if r.status == "hang" {
-		w.Put(hx.Case{Scn: "#hang", Obs: "st=hang", Oracle: "FAIL c02-hang Run did not return within 10s", Tags: tags})
+		w.Put(hx.Case{Scn: "#hang " + fmt.Sprintf("%d nodes, loaderFail=%v scanFail=%v", len(sc.nodes), sc.loaderFail, sc.scanFail), Obs: "st=hang",
+			Oracle: "FAIL c02-hang Run did not return within 10s", Tags: tags})
+		hangs++
+		if hangs >= 3 {
+			// every further hang costs 10 s and leaks goroutines: three concrete witnesses are enough
+			w.Close()
+			os.Exit(0)
+		}
 		return r
 	}
 	if os.Getenv("HARNESS_DEBUG") != "" && r.errText != "" {
